@@ -857,8 +857,10 @@ class StrategyBase(Node):
         if self._paper_trade:
             if newpt:
                 self._paper.update(date)
-                # like Backtest.run: a bankrupt strategy no longer runs
-                if not self._paper.bankrupt:
+                # like Backtest.run: the algos do not run on the first row of
+                # the data (the dummy row a Backtest prepends), and a bankrupt
+                # strategy no longer runs
+                if inow != 0 and not self._paper.bankrupt:
                     self._paper.run()
                     self._paper.update(date)
             # update price
